@@ -135,10 +135,12 @@ def _call_fix(fn, a):
     if a["variant"] == "scaled":
         t, an = a["target"].copy(), a["antitarget"].copy()
         sh = math.log2(a["scale"])
-        t.data["log2"] = t.data["log2"] + sh
+        # a sample sequenced `scale` times deeper: every covered bin's depth is multiplied and its log2 shifted; a bin no
+        # read overlaps stays at depth 0 / log2 -20 (what `coverage` reports for it at any sequencing depth)
+        t.data["log2"] = t.data["log2"] + sh * (t.data["depth"] > 0)
         t.data["depth"] = t.data["depth"] * a["scale"]
         if len(an):
-            an.data["log2"] = an.data["log2"] + sh
+            an.data["log2"] = an.data["log2"] + sh * (an.data["depth"] > 0)
             an.data["depth"] = an.data["depth"] * a["scale"]
         other = _run_fix(a, t, an)
     elif a["variant"] == "permuted":
@@ -262,7 +264,10 @@ def _chk_fix(args, res, old):
         a, b = out.data.reset_index(drop=True), res["other"].data.reset_index(drop=True)
         if len(a) != len(b) or list(a.chromosome) != list(b.chromosome) or list(a.start) != list(b.start):
             return "%s inputs change the emitted bins or their order" % old["variant"]
-        d = float(np.abs(a.log2.values - b.log2.values).max()) if len(a) else 0.0
+        # (a bin no read overlaps carries the placeholder log2 -20 at any sequencing depth; relative to the centre of the
+        # covered bins it necessarily moves when they are rescaled, so only covered bins are compared under rescaling)
+        cov = (a.depth.values > 0) if (old["variant"] == "scaled" and "depth" in a) else np.ones(len(a), dtype=bool)
+        d = float(np.abs(a.log2.values - b.log2.values)[cov].max()) if cov.any() else 0.0
         dw = float(np.abs(a.weight.values - b.weight.values).max()) if len(a) else 0.0
         if _few_bins_per_chromosome(old):
             dw = 0.0       # judged by its own clause (weights_when_residuals_are_exactly_symmetric)
